@@ -1235,6 +1235,8 @@ class BinaryOpUGen(BasicOpUGen):
 
     def _optimize_sub(self):
         a, b = self.inputs
+        if a is b:  # b can't be removed, it is also the minuend.
+            return
 
         if isinstance(b, UnaryOpUGen) and b.operator == 'neg'\
         and len(b._descendants) == 1:
